@@ -14,6 +14,7 @@ mod codec;
 mod ep_families;
 mod epsim;
 mod families;
+mod fidelity;
 mod hcsim;
 mod hostile;
 mod misc;
@@ -249,6 +250,9 @@ fn run_scenario(family: &str, seed: u64, idx: u64, params: &Params) -> ScnOut {
         }
         "frag-rx" => {
             rxsynth::run_batch(scn_seed, params, &mut out);
+        }
+        "ep-fidelity" => {
+            fidelity::run(scn_seed, &mut out);
         }
         "sendsync" => {
             misc::run_sendsync(scn_seed, &mut out);
